@@ -8,6 +8,7 @@ import numpy.typing
 import numpoly
 
 from ..baseclass import ndpoly, PolyLike
+from ..construct.from_attributes import RAW_WRITER_DTYPES
 from ..dispatch import implements
 
 
@@ -78,32 +79,33 @@ def multiply(
         else out
     )
 
-    #    seen = set()
-    #    for expon1, coeff1 in zip(x1.exponents, x1.coefficients):
-    #        for expon2, coeff2 in zip(x2.exponents, x2.coefficients):
-    #            key = (expon1 + expon2 + x1.KEY_OFFSET).ravel()
-    #            key = key.view(f"U{len(expon1)}").item()
-    #            if key in seen:
-    #                out_.values[key] += numpy.multiply(
-    #                    coeff1, coeff2, where=where, **kwargs
-    #                )
-    #            else:
-    #                numpy.multiply(
-    #                    coeff1, coeff2, out=out_.values[key], where=where, **kwargs
-    #                )
-    #            seen.add(key)
-    #
-    #    if out is None:
-    #        out_ = numpoly.clean_attributes(out_)
-
-    numpoly.cmultiply(
-        x1.exponents,
-        x2.exponents,
-        x1.coefficients,
-        x2.coefficients,
-        x1.KEY_OFFSET,
-        out_.values.ravel(),
-    )
+    # The compiled kernel builds its keys one byte per exponent and writes
+    # coefficients as raw words of a few known types; use it only where that
+    # is exact, and the plain loop otherwise.
+    if (
+        dtype in RAW_WRITER_DTYPES
+        and int(numpy.max(exponents, initial=0)) + x1.KEY_OFFSET < 128
+    ):
+        numpoly.cmultiply(
+            x1.exponents,
+            x2.exponents,
+            x1.coefficients,
+            x2.coefficients,
+            x1.KEY_OFFSET,
+            out_.values.ravel(),
+        )
+    else:
+        values = out_.values
+        seen = set()
+        for expon1, coeff1 in zip(x1.exponents, x1.coefficients):
+            for expon2, coeff2 in zip(x2.exponents, x2.coefficients):
+                key = (expon1 + expon2 + x1.KEY_OFFSET).astype("uint32")
+                key = key.view(f"U{len(expon1)}").item()
+                if key in seen:
+                    values[key] += numpy.multiply(coeff1, coeff2, dtype=dtype)
+                else:
+                    values[key] = numpy.multiply(coeff1, coeff2, dtype=dtype)
+                seen.add(key)
     if out is None:
         out_ = numpoly.clean_attributes(out_)
 
